@@ -188,7 +188,7 @@ def c08(F, R, tier):
 
 @prop("C01",
       technique="static: sign/variance typing of the requirement argument of every recursive linearize call against the post-processing applied to its result; relaxation tables evaluated over their finite domains; end-point polarity of big-M constants; dominance (apply_to_domain before construction); guard/field-set agreement",
-      explanation="PARTIAL (necessary structure). Decides (P-REQ) for each of the 19 recursive Exp::linearize calls and the helper entries: the requirement passed down equals the sign with which the returned value enters the caller's result (merge_sub / mul_by(-1) / mul_by(k) / div_by(k) tracked; `reversed`, `through_scale(k)`, `through_scale(1/k)` normalised), Exact accepted everywhere; (T-CONVEX) reversed/through_scale tables, abs exact-vs-one-sided table, (ExtremeKind, requirement)->one_sided table true only for (Max,PreferLower),(Min,PreferHigher), operand requirement table, one-sided row direction, row comparison->requirement table; (P-BIGM) big-M constants are U(aux)-L(operand) for max and U(operand)-L(aux) for min, abs factors 2L with (1-p) and 2U with p, exact rows' direction and combinator, pruning tests L(other)>=U(this) / U(other)<=L(this), sign-known abs shortcuts on L>=0 / U<=0 with the matching requirement, selectors sum to one; (D-APPLY) derived bounds are applied to the domain handed to the linearizer, declare_variable is the only writer of the domain and registers bounds too; (D-FINITE) big-M end-points are tested finite by the guard of the same arm. NOT decided: that the rows are an exact encoding -- big-M magnitudes with the right polarity (2L vs L), ties between equal fixed operands, interplay with bound propagation, real (non-grid) points, and the logic-lowering templates (not built).")
+      explanation="PARTIAL (necessary structure). Decides (P-REQ) for each of the 19 recursive Exp::linearize calls and the helper entries: the requirement passed down equals the sign with which the returned value enters the caller's result (merge_sub / mul_by(-1) / mul_by(k) / div_by(k) tracked; `reversed`, `through_scale(k)`, `through_scale(1/k)` normalised), Exact accepted everywhere; (T-CONVEX) reversed/through_scale tables, abs exact-vs-one-sided table, (ExtremeKind, requirement)->one_sided table true only for (Max,PreferLower),(Min,PreferHigher), operand requirement table, one-sided row direction, row comparison->requirement table; (P-BIGM) big-M constants are U(aux)-L(operand) for max and U(operand)-L(aux) for min, abs factors 2L with (1-p) and 2U with p, exact rows' direction and combinator, pruning tests L(other)>=U(this) / U(other)<=L(this), sign-known abs shortcuts on L>=0 / U<=0 with the matching requirement, selectors sum to one; (D-APPLY) derived bounds are applied to the domain handed to the linearizer, declare_variable is the only writer of the domain and registers bounds too; (D-FINITE) big-M end-points are tested finite by the guard of the same arm. (T-NUM-TEMPLATES) the abs / min / max lowering arms of Exp::linearize and linearize_extreme (and the arithmetic arms that hand a requirement down: +, -, scale, division, negation) are evaluated from their HIR with the linearizer context replaced by a recorder and the bounds oracle by a table of intervals; for 13 interval classes of abs, 12 of binary min/max (dominated, overlapping, equal-fixed, half-bounded, unbounded), ternary and constant operands and 19 nested forms (abs of a sign-known or sign-unknown min/max, min/max of abs, negative scales and divisors, differences), each under the three value requirements (153 templates), the emitted rows and auxiliary domains are decided on a rational grid of operand values including non-integers: Exact -- some 0/1 selectors satisfy all rows iff the value equals f(operands); PreferLower/PreferHigher -- f(operands) stays reachable and nothing on the wrong side of it is let in; a refusal is accepted only when a needed bound is infinite; a row with a non-finite constant is rejected. NOT decided: that the rows are an exact encoding -- big-M magnitudes with the right polarity (2L vs L), ties between equal fixed operands, interplay with bound propagation, real (non-grid) points, and the logic-lowering templates (not built).")
 def c01(F, R, tier):
     import c01 as mod
     mod.check_c01(F, R)
@@ -196,7 +196,7 @@ def c01(F, R, tier):
 
 @prop("C02",
       technique="static: requirement polarity typing and relaxation tables (shared with C01), objective-direction table, data-flow of the objective offset from the linearised objective into the linear model and into every solver's reported value",
-      explanation="PARTIAL. Decides P-REQ and T-CONVEX as for C01 (a wrong polarity in the objective makes the relaxed auxiliary unbounded or the optimum wrong); (T-OBJ) Min->PreferLower, Max->PreferHigher; (D-OFFSET) the constant of the linearised objective reaches LinearModel::new_from_parts unmodified together with its coefficients and the model's own direction, and every solver entry adds objective_offset (or uses calc_objective) when reporting the value, the tableau flipping the value but not the offset. NOT decided: equality of optimal values and optimal assignments (numeric).")
+      explanation="PARTIAL. Decides P-REQ and T-CONVEX as for C01 (a wrong polarity in the objective makes the relaxed auxiliary unbounded or the optimum wrong); (T-OBJ) Min->PreferLower, Max->PreferHigher; (D-OFFSET) the constant of the linearised objective reaches LinearModel::new_from_parts unmodified together with its coefficients and the model's own direction, and every solver entry adds objective_offset (or uses calc_objective) when reporting the value, the tableau flipping the value but not the offset. (T-NUM-TEMPLATES, one-sided part) as in C01 for the PreferLower / PreferHigher requirements: on the grid the one-sided abs/min/max lowerings never let a value on the objective's good side of f(operands) in and keep f(operands) itself feasible, through negative scales, divisors and differences too. NOT decided: equality of optimal values and optimal assignments (numeric).")
 def c02(F, R, tier):
     import c01 as mod
     mod.check_c02(F, R)
